@@ -25,6 +25,8 @@ pub enum Ret {
 pub struct Frame {
     pub locals: Vec<V>,
     pub ret: Ret,
+    /// operand-stack height when the frame was entered (after the arguments were popped)
+    pub base: usize,
 }
 
 #[derive(Clone, Debug, PartialEq)]
@@ -109,7 +111,7 @@ impl<'p> Machine<'p> {
         Ok(Machine {
             p,
             stack: Vec::new(),
-            frames: vec![Frame { locals: vec![V::Null; locals], ret: Ret::Halt }],
+            frames: vec![Frame { locals: vec![V::Null; locals], ret: Ret::Halt, base: 0 }],
             globals,
             functions,
             labels,
@@ -426,7 +428,8 @@ impl<'p> Machine<'p> {
     }
 
     fn enter(&mut self, method: usize, locals: Vec<V>, ret: Ret) {
-        self.frames.push(Frame { locals, ret });
+        let base = self.stack.len();
+        self.frames.push(Frame { locals, ret, base });
         if self.code(method).is_empty() {
             // empty body: control would run into whatever follows; not conforming
             self.ip = None;
